@@ -38,7 +38,7 @@ class OFD:
 class Stream:
     """one direction of a connection"""
     __slots__ = ('buf', 'cap', 'rq', 'wq', 'inflight_bytes', 'latency', 'last_deliver', 'written', 'read',
-                 'discard')
+                 'discard', 'tap_label')
 
     def __init__(self, cap, latency=0.0):
         self.buf = bytearray()
@@ -51,6 +51,7 @@ class Stream:
         self.written = 0
         self.read = 0
         self.discard = False      # reader is gone: arriving data is dropped
+        self.tap_label = None
 
 
 class Sock(OFD):
@@ -183,6 +184,8 @@ def _deliver_at(sim, s):
 def _put(sim, s, data):
     """writer side: data accepted by the kernel"""
     s.written += len(data)
+    if sim.tap is not None and s.tap_label is not None:
+        sim.tap.setdefault(s.tap_label, bytearray()).extend(data)
     when = _deliver_at(sim, s)
     if when is None:
         if not s.discard:
@@ -450,6 +453,8 @@ def tcp_connect(sim, sock, addr):
     sim.nconn += 1
     sock.label = f'tcp{n}.c'
     srv.label = f'tcp{n}.s'
+    s_c2s.tap_label = f'tcp{n}.c2s'
+    s_s2c.tap_label = f'tcp{n}.s2c'
     lst.backlog.append(srv)
     sim.ev('connect', t.name, port, sock.label)
     sim.wake_q(lst.accept_q)
